@@ -763,6 +763,20 @@ def run_spec_positions(spec, cfg):
                 pairs.append(("evaluate-stale-state", "call %d of one ModelWrapper vs the same position on a fresh one" % k, alone(s_), got))
                 pairs.append(("padding-dependent", "call %d of one ModelWrapper vs the same position in a padded batch" % k, batched(s_), got))
                 k += 1
+        # the wrapper lives on: up to `repeat` calls in all, cycling through the positions of the session.  Compared
+        # as tensors with the first answer the same wrapper gave for that position; only a call that differs is
+        # spelled out as a pair.
+        flat = [s_ for r in rounds for s_ in r]
+        first = {}
+        while flat and k < int(spec.get("repeat", 0)):
+            s_ = flat[k % len(flat)]
+            pr, v = w.evaluate(pos_of(s_)[0])
+            if s_ not in first:
+                first[s_] = (pr.detach().clone(), float(v))
+            elif not (torch.equal(pr, first[s_][0]) and float(v) == first[s_][1]):
+                got = [float(v)] + [float(x) for x in pr.to(torch.float64).tolist()]
+                pairs.append(("evaluate-stale-state", "call %d of one ModelWrapper vs the same position on a fresh one" % k, alone(s_), got))
+            k += 1
         return pairs
     if kind == "server":
         served = serve_rounds(m, [[pos_of(s_)[1] for s_ in r] for r in rounds])
@@ -916,14 +930,17 @@ def gen_position_specs(ctx, n):
         pe = positions(rng, rng.randint(2, 6))
         if not pe:
             continue
-        dtype = "float32" if rng.random() < 0.7 else "float64"
+        dtype = "float32" if (it == 0 or rng.random() < 0.7) else "float64"
         cfg = rand_cfg(rng, head="pv", n_vocab=256, dtype=dtype, min_ctx=max(len(e) for _, e in pe))
         ps = [ser.pos_str(p) for p, _ in pe]
 
         def session():
             return [[ps[i] for i in r] for r in schedule(rng, len(ps))]
 
-        yield {"kind": "evaluate", "cfg": cfg.to_json(), "rounds": session()[:3]}
+        ev = {"kind": "evaluate", "cfg": cfg.to_json(), "rounds": session()[:3]}
+        if it == 0:
+            ev["repeat"] = 1100  # a wrapper that has answered more than a thousand times
+        yield ev
         yield {"kind": "server", "cfg": cfg.to_json(), "rounds": session()}
         yield {"kind": "dataset", "cfg": cfg.to_json(), "rounds": session()[:3], "batch_size": rng.randint(1, 4), "epochs": 2}
 
